@@ -323,11 +323,15 @@ func (c *XAConn) Rollback(ctx context.Context) error {
 
 	if !c.rollBacked {
 		if c.xaResource.End(ctx, c.xaBranchXid.String(), xa.TMFail) != nil {
-			return c.rollbackErrorHandle()
+			// the error names the branch: build it before the branch context is cleaned
+			err := c.rollbackErrorHandle()
+			c.cleanXABranchContext()
+			return err
 		}
 		if c.XaRollback(ctx, c.xaBranchXid) != nil {
+			err := c.rollbackErrorHandle()
 			c.cleanXABranchContext()
-			return c.rollbackErrorHandle()
+			return err
 		}
 		if err := c.tx.Rollback(); err != nil {
 			c.cleanXABranchContext()
